@@ -1024,6 +1024,8 @@ func exec(line string) h.Result {
 		return execCheck(w)
 	case "api":
 		return execAPI(w)
+	case "k1", "k2", "kt":
+		return execKyber(w)
 	case "const":
 		return execConst(w)
 	}
